@@ -693,6 +693,11 @@ func runCase(line string) string {
 		case "CA":
 			fn, _ := goja.AssertFunction(callee)
 			_, err = fn(goja.Undefined())
+		case "TR": // Runtime.Try around Object.Get on an accessor whose getter is the head of the chain
+			obj := c.shim("getter", callee).(*goja.Object)
+			if ex := r.Try(func() { obj.Get("x") }); ex != nil {
+				err = ex
+			}
 		case "CO": // AssertConstructor: the same runWrapped boundary as Callable, entered through `new`
 			ctor, ok := goja.AssertConstructor(c.shim("ctorOf", callee))
 			if !ok {
